@@ -32,7 +32,7 @@ class C02(Prop):
     id = "C02"
     driver = "Env"
     quick_n = 110
-    thorough_n = 3000
+    thorough_n = 8000
     rule = ("(a) event API: a bar-shaped episode and a twin whose events stamped after a random cut t (a timestep) "
             "carry re-drawn prices (same timestamps, so the same event-bearing steps), same actions: everything "
             "returned or recorded up to the step landing on t must be identical (log, rewards, done, positions, NLV, "
@@ -41,6 +41,7 @@ class C02(Prop):
             "are perturbed with transformer_end <= t (z-score / yeo-johnson / none, window 1..6, stride): "
             "observations, rewards, done flags up to t must be identical. Non-trivial = the perturbation actually "
             "changed a later output (so the comparison is not vacuous); distinct = distinct cases")
+    rule = rule + es.CONTEXT_RULE
     nontrivial_tags = {"later-output-changed", "xy-later-output-changed"}
     assumptions = [
         "perturbations change values, not timestamps (the property's hypothesis: same event-bearing steps)",
